@@ -12,9 +12,9 @@ theorem checkExternal_ok_iff (kvs : Val.KVs) : checkExternal kvs = .ok ↔ Exter
   cases h : Val.lookup "external" kvs with
   | none => simp
   | some x =>
-    cases x with
-    | bool b => cases b <;> simp [List.all_eq_true]
-    | _ => simp
+    cases hb : asBoolean x with
+    | none => simp [hb]
+    | some b => cases b <;> simp [hb, List.all_eq_true]
 
 theorem run_ok_iff (c : Checker) (w : Val) : run c w = .ok ↔ Passes c w := by
   cases c with
